@@ -370,6 +370,102 @@ class Rewriter:
             n += 1
         self.hit("R8", n)
 
+    # R10 -----------------------------------------------------------------
+    def desugar_final_guard(self):
+        """`P if G => A, _ => B` (guarded arm directly followed by the FINAL catch-all arm `_`)
+        becomes `P => if G { A } else { B }, _ => B`, which is what rustc does when G is false,
+        provided B mentions no name bound by P. Needed because Verus 0.2026.09.13 loses the state
+        at the arm after a guarded arm whose body mutates state (DESIGN 11.1)."""
+        n = 0
+        m = mask(self.text)
+        for mm in list(re.finditer(r"\bif\b", m)):
+            # find `PAT if GUARD => BODY,` directly before `_ => B` + closing brace of the match
+            arrow = m.find("=>", mm.end())
+            if arrow < 0:
+                continue
+            guard = self.text[mm.end():arrow].strip()
+            if "{" in m[mm.end():arrow] or ";" in m[mm.end():arrow]:
+                continue  # an `if` statement/expression, not a match guard
+            # pattern start: after previous `,` or `{` at the same nesting
+            k = mm.start() - 1
+            depth = 0
+            while k >= 0:
+                ch = m[k]
+                if ch in ")]}":
+                    depth += 1
+                elif ch in "([{":
+                    if depth == 0:
+                        break
+                    depth -= 1
+                elif ch == "," and depth == 0:
+                    break
+                k -= 1
+            pat = self.text[k + 1:mm.start()].strip()
+            if not pat or "=>" in pat:
+                continue
+            # body A: expression up to the `,` at depth 0 (or a block)
+            j = arrow + 2
+            while m[j].isspace():
+                j += 1
+            if m[j] == "{":
+                a_end = match_close(m, j) + 1
+                body_a = self.text[j:a_end]
+                j2 = a_end
+                while m[j2].isspace() or m[j2] == ",":
+                    j2 += 1
+            else:
+                depth = 0
+                j2 = j
+                while True:
+                    ch = m[j2]
+                    if ch in "([{":
+                        depth += 1
+                    elif ch in ")]}":
+                        if depth == 0:
+                            break
+                        depth -= 1
+                    elif ch == "," and depth == 0:
+                        break
+                    j2 += 1
+                body_a = self.text[j:j2].strip()
+                a_end = j2
+                while m[j2].isspace() or m[j2] == ",":
+                    j2 += 1
+            # next arm must be the final `_ => B`
+            mm2 = re.match(r"_\s*=>\s*", m[j2:])
+            if not mm2:
+                continue
+            b_start = j2 + mm2.end()
+            if m[b_start] == "{":
+                b_end = match_close(m, b_start) + 1
+            else:
+                depth = 0
+                b_end = b_start
+                while True:
+                    ch = m[b_end]
+                    if ch in "([{":
+                        depth += 1
+                    elif ch in ")]}":
+                        if depth == 0:
+                            break
+                        depth -= 1
+                    elif ch == "," and depth == 0:
+                        break
+                    b_end += 1
+            body_b = self.text[b_start:b_end].strip()
+            rest = m[b_end:].lstrip(" \t\n,")
+            if not rest.startswith("}"):
+                continue  # `_` is not the final arm
+            bound = set(re.findall(r"\b[a-z_][a-z_0-9]*\b", mask(pat))) - {"_", "ref", "mut"}
+            if any(re.search(r"\b%s\b" % re.escape(b), body_b) for b in bound):
+                continue
+            new_arm = "%s => if %s { %s } else { %s }" % (pat, guard, body_a, body_b)
+            self.text = self.text[:k + 1] + "\n" + new_arm + self.text[a_end:]
+            n += 1
+            break  # one per call (positions shifted)
+        self.hit("R10", n)
+        return n
+
     @staticmethod
     def _block_open(m, start):
         par = 0
